@@ -55,64 +55,43 @@ Definition np (q : list dpkg) (errs : nat) : (dpkg * list dpkg * nat) + lres :=
 Definition enc_modes_refused (e : Z) : bool := (e =? g_msg_encrypt) || (e =? g_msg_encrypt2) || (e =? g_msg_encrypt3).
 Definition with_encryption (e : Z) : bool := e =? g_msg_encrypt4.
 
+(* one step of the negotiation: the next package must satisfy [ok] (a type assertion / field check of login.go) *)
+Definition expect {X} (q : list dpkg) (errs : nat) (ok : dpkg -> bool) (k : dpkg -> list dpkg -> nat -> X + lres) : X + lres :=
+  match np q errs with
+  | inr r => inr r
+  | inl (p, q', e') => if ok p then k p q' e' else inr LRejected
+  end.
+
 (* ---- plain flow: LOGINACK(SUCCEED), DONE(FINAL) *)
 Definition plain_flow (q : list dpkg) (errs : nat) : lres :=
-  match np q errs with
+  match expect q errs (fun a => is_ack a && (ack_status a =? g_log_succeed)) (fun _ q1 e1 =>
+        expect q1 e1 (fun d => is_done d && (done_status d =? g_done_final)) (fun _ _ _ => inl tt)) with
+  | inl _ => LSuccess
   | inr r => r
-  | inl (p1, q1, e1) =>
-    if negb (is_ack p1) then LRejected
-    else if negb (ack_status p1 =? g_log_succeed) then LRejected
-    else match np q1 e1 with
-         | inr r => r
-         | inl (p2, _, _) => if is_done p2 && (done_status p2 =? g_done_final) then LSuccess else LRejected
-         end
+  end.
+
+(* the three key parameters: cipher suite (INT4, value 1 = RSA), public key and nonce (LONGBINARY, not NULL: the
+   Go value of a zero-length LONGBINARY is nil, which is not a []byte) *)
+Definition key_params (pf ps : dpkg) : option (bytes * bytes) :=
+  match fmt_types pf, param_data ps with
+  | [t0; t1; t2], [d0; d1; d2] =>
+    if (t0 =? g_dt_int4) && list_Z_eqb d0 [1; 0; 0; 0] && (t1 =? g_dt_longbinary) && (t2 =? g_dt_longbinary)
+       && negb (zlen d1 =? 0) && negb (zlen d2 =? 0)
+    then Some (d1, d2) else None
+  | _, _ => None
   end.
 
 (* ---- encrypted flow, first half: LOGINACK(NEGOTIATE) MSG(ENCRYPT4) PARAMFMT(3) PARAMS(3) DONE; yields key and nonce *)
 Definition negotiation (q : list dpkg) (errs : nat) : (bytes * bytes * list dpkg * nat) + lres :=
-  match np q errs with
-  | inr r => inr r
-  | inl (p1, q1, e1) =>
-    if negb (is_ack p1) then inr LRejected
-    else if negb (ack_status p1 =? g_log_negotiate) then inr LRejected
-    else match np q1 e1 with
-    | inr r => inr r
-    | inl (p2, q2, e2) =>
-      if negb (is_msg p2) then inr LRejected
-      else if negb (msg_id p2 =? g_msg_encrypt4) then inr LRejected
-      else match np q2 e2 with
-      | inr r => inr r
-      | inl (p3, q3, e3) =>
-        if negb (is_paramfmt p3) then inr LRejected
-        else if negb (length (fmt_types p3) =? 3)%nat then inr LRejected
-        else match np q3 e3 with
-        | inr r => inr r
-        | inl (p4, q4, e4) =>
-          if negb (is_params p4) then inr LRejected
-          else if negb (length (param_data p4) =? 3)%nat then inr LRejected
-          else match np q4 e4 with
-          | inr r => inr r
-          | inl (p5, q5, e5) =>
-            if negb (is_done p5) then inr LRejected
-            else
-              match fmt_types p3, param_data p4 with
-              | [t0; t1; t2], [d0; d1; d2] =>
-                if negb (t0 =? g_dt_int4) then inr LRejected
-                else if negb (list_Z_eqb d0 [1; 0; 0; 0]) then inr LRejected          (* asymmetric type 1 = RSA *)
-                else if negb (t1 =? g_dt_longbinary) then inr LRejected
-                else if negb (t2 =? g_dt_longbinary) then inr LRejected
-                else match d1, d2 with
-                     | [], _ => inr LRejected                                          (* NULL: the value is not a []byte *)
-                     | _, [] => inr LRejected
-                     | _, _ => inl (d1, d2, q5, e5)
-                     end
-              | _, _ => inr LRejected
-              end
-          end
-        end
-      end
-    end
-  end.
+  expect q errs (fun a => is_ack a && (ack_status a =? g_log_negotiate)) (fun _ q1 e1 =>
+  expect q1 e1 (fun m => is_msg m && (msg_id m =? g_msg_encrypt4)) (fun _ q2 e2 =>
+  expect q2 e2 (fun pf => is_paramfmt pf && (length (fmt_types pf) =? 3)%nat) (fun pf q3 e3 =>
+  expect q3 e3 (fun ps => is_params ps && (length (param_data ps) =? 3)%nat) (fun ps q4 e4 =>
+  expect q4 e4 is_done (fun _ q5 e5 =>
+    match key_params pf ps with
+    | Some (pem, nonce) => inl (pem, nonce, q5, e5)
+    | None => inr LRejected
+    end))))).
 
 (* ---- second half: skip to the LOGINACK, it must be SUCCEED; CAPABILITY (sane); DONE(FINAL) *)
 Definition ack_cb (_ : nat) (p : dpkg) : cbres :=
@@ -136,13 +115,62 @@ Definition acknowledgement (q : list dpkg) (errs : nat) : lres * option tree :=
   | _ => (LRejected, None)
   end.
 
+(* ---------------------------------------------------------------- the decision *)
+Section Decide.
+Variable keycap : bytes -> Z.              (* plaintext capacity of a PEM key; negative: unusable *)
+
+Definition fits_key (pem nonce secret : bytes) : bool := (0 <=? keycap pem) && (zlen nonce + zlen secret <=? keycap pem).
+
+(* the servers whose passwords are sent: the server itself (empty name, the account password) and the configured ones *)
+Definition servers (c : login_cfg) : list (bytes * bytes) := ([], lc_password c) :: lc_remote c.
+
+(* every encryption succeeds: the password, every server password, the 32-byte session key *)
+Definition all_fit (c : login_cfg) (pem nonce : bytes) : bool :=
+  forallb (fun s => fits_key pem nonce (snd s)) (servers c) && fits_key pem nonce (zeros 32).
+
+(* the encrypted flow over what the two replies deliver: q1/e1 from the reply to the login record, q2/e2 from the
+   reply to the encrypted passwords (only sent, hence only answered, if the negotiation went through) *)
+Definition enc_flow (c : login_cfg) (q1 : list dpkg) (e1 : nat) (q2 : list dpkg) (e2 : nat) : lres * option tree :=
+  match negotiation q1 e1 with
+  | inr r => (r, None)
+  | inl (pem, nonce, q1', e1') =>
+    if all_fit c pem nonce then acknowledgement (q1' ++ q2) (e1' + e2)%nat else (LRejected, None)
+  end.
+
+Record decision := {
+  d_res : lres; d_caps : option tree; d_packsize : Z;
+  d_sent1 : bool;                                   (* the login record went out *)
+  d_key : option (bytes * bytes * Z) }.             (* key, nonce and packet size of the second message, if it was begun *)
+
+Definition decide (c : login_cfg) (rounds : list (list packet_in)) : decision :=
+  let ps0 := 512 in
+  if enc_modes_refused (lc_encrypt c) || negb (fields_fitb c) then
+    {| d_res := LRejected; d_caps := None; d_packsize := ps0; d_sent1 := false; d_key := None |}
+  else
+    let '(ess1, rx1) := rx_run 0 0 rx_init (nth 0 rounds []) in
+    let es1 := concat ess1 in
+    let ps1 := size_after ps0 es1 in
+    let q1 := delivered_of es1 in
+    let e1 := errs_of es1 in
+    if negb (with_encryption (lc_encrypt c)) then
+      {| d_res := plain_flow q1 e1; d_caps := None; d_packsize := ps1; d_sent1 := true; d_key := None |}
+    else
+      let '(ess2, _) := rx_run 0 0 rx1 (nth 1 rounds []) in
+      let es2 := concat ess2 in
+      let '(r, caps) := enc_flow c q1 e1 (delivered_of es2) (errs_of es2) in
+      match negotiation q1 e1 with
+      | inr _ => {| d_res := r; d_caps := caps; d_packsize := ps1; d_sent1 := true; d_key := None |}
+      | inl (pem, nonce, _, _) =>
+        {| d_res := r; d_caps := caps; d_packsize := if all_fit c pem nonce then size_after ps1 es2 else ps1;
+           d_sent1 := true; d_key := Some (pem, nonce, ps1) |}
+      end.
+End Decide.
+
 (* ---------------------------------------------------------------- what login writes *)
 Section Tx.
 Variable enc : bytes -> bytes -> nat -> bytes.     (* key, plaintext, number of the call -> ciphertext *)
 Variable keycap : bytes -> Z.
 Variable symkey : bytes.                           (* the session key drawn from crypto/rand *)
-
-Definition fits_key (pem nonce secret : bytes) : bool := (0 <=? keycap pem) && (zlen nonce + zlen secret <=? keycap pem).
 
 Definition msg_pkg (id : Z) : bytes := g_tok_msg :: 3 :: g_msg_hasargs :: bytes_of_le 2 id.
 Definition longbinary_param (ct : bytes) : bytes := tok_params :: bytes_of_le 4 (zlen ct) ++ ct.
@@ -154,14 +182,11 @@ Definition paramfmt_pkg (fmts : list bytes) : bytes :=
   let body := bytes_of_le 2 (zlen fmts) ++ concat fmts in
   tok_paramfmt :: bytes_of_le 2 (zlen body) ++ body.
 
-(* the servers whose passwords are sent: the server itself (empty name, the account password) and the configured ones *)
-Definition servers (c : login_cfg) : list (bytes * bytes) := ([], lc_password c) :: lc_remote c.
-
 Fixpoint remote_cts (pem nonce : bytes) (k : nat) (srv : list (bytes * bytes)) : option (list (bytes * bytes)) :=
   match srv with
   | [] => Some []
   | (name, pw) :: r =>
-    if fits_key pem nonce pw then
+    if fits_key keycap pem nonce pw then
       match remote_cts pem nonce (S k) r with
       | Some l => Some ((name, enc pem (nonce ++ pw) k) :: l)
       | None => None
@@ -172,7 +197,7 @@ Fixpoint remote_cts (pem nonce : bytes) (k : nat) (srv : list (bytes * bytes)) :
 (* the packages queued for the second message, in order, and whether all of them were queued (an encryption that
    fails leaves the ones queued before it in the send queue; full packets among them have already gone out) *)
 Definition second_message (c : login_cfg) (pem nonce : bytes) : list bytes * bool :=
-  if negb (fits_key pem nonce (lc_password c)) then ([], false)
+  if negb (fits_key keycap pem nonce (lc_password c)) then ([], false)
   else
     let pw := [msg_pkg g_msg_logpwd3; paramfmt_pkg [fmt_longbinary]; longbinary_param (enc pem (nonce ++ lc_password c) 0)] in
     match remote_cts pem nonce 1 (servers c) with
@@ -181,7 +206,7 @@ Definition second_message (c : login_cfg) (pem nonce : bytes) : list bytes * boo
       let rem := [msg_pkg g_msg_rempwd3;
                   paramfmt_pkg (concat (map (fun _ => [fmt_varchar; fmt_longbinary]) rs));
                   tok_params :: concat (map (fun r => bytes_of_le 1 (zlen (fst r)) ++ fst r ++ bytes_of_le 4 (zlen (snd r)) ++ snd r) rs)] in
-      if negb (fits_key pem nonce (zeros 32)) then (pw ++ rem, false)      (* the session key is 32 bytes *)
+      if negb (fits_key keycap pem nonce (zeros 32)) then (pw ++ rem, false)      (* the session key is 32 bytes *)
       else (pw ++ rem ++ [msg_pkg g_msg_symkey; paramfmt_pkg [fmt_longbinary];
                           longbinary_param (enc pem (nonce ++ symkey) (S (length (servers c))))], true)
     end.
@@ -191,55 +216,40 @@ Definition caps_pkg (order : list Z) : bytes :=
   let blocks := map (fun t => let m := zassoc t g_default_caps [] in t :: zlen m :: m) order in
   g_tok_capability :: bytes_of_le 2 (zlen (concat blocks)) ++ concat blocks.
 
-Definition first_message (c : login_cfg) (order : list Z) : option (list bytes) :=
-  match enc_login c with
-  | Some rec => Some [rec; caps_pkg order]
-  | None => None
+Definition tx0 : txst := {| tq := empty_pq; tnr := 0 |}.
+Definition pkgs_chunks (l : list bytes) : list (list bytes) := map (fun p => [p]) l.
+
+(* the messages on the wire (each a list of packets); a send that the tx model refuses writes nothing *)
+Definition wire_of (c : login_cfg) (order : list Z) (d : decision) : list (list bytes) :=
+  if negb (d_sent1 d) then []
+  else match enc_login c with
+  | None => []
+  | Some rec =>
+    match send_message 512 0 g_buf_login (pkgs_chunks [rec; caps_pkg order]) tx0 with
+    | None => []
+    | Some (w1, tx1) =>
+      match d_key d with
+      | None => [w1]
+      | Some (pem, nonce, ps1) =>
+        let '(pkgs, complete) := second_message c pem nonce in
+        if complete then
+          match send_message ps1 0 g_buf_normal (pkgs_chunks pkgs) tx1 with
+          | Some (w2, _) => [w1; w2]
+          | None => [w1]
+          end
+        else
+          match queue_all ps1 0 g_buf_normal (pkgs_chunks pkgs) tx1 with
+          | Some (w2, _) => match w2 with [] => [w1] | _ => [w1; w2] end        (* packets that were already full *)
+          | None => [w1]
+          end
+      end
+    end
   end.
 
 (* ---------------------------------------------------------------- the whole call *)
 Record outcome := { o_res : lres; o_caps : option tree; o_packsize : Z; o_wire : list (list bytes) }.
 
-Definition tx0 : txst := {| tq := empty_pq; tnr := 0 |}.
-Definition pkgs_chunks (l : list bytes) : list (list bytes) := map (fun p => [p]) l.
-
 Definition login (c : login_cfg) (order : list Z) (rounds : list (list packet_in)) : outcome :=
-  let ps0 := 512 in
-  let fail := {| o_res := LRejected; o_caps := None; o_packsize := ps0; o_wire := [] |} in
-  if enc_modes_refused (lc_encrypt c) then fail
-  else match first_message c order with
-  | None => fail
-  | Some m1 =>
-    match send_message ps0 0 g_buf_login (pkgs_chunks m1) tx0 with
-    | None => fail
-    | Some (w1, tx1) =>
-      let '(ess1, rx1) := rx_run 0 0 rx_init (nth 0 rounds []) in
-      let es1 := concat ess1 in
-      let ps1 := size_after ps0 es1 in
-      let q1 := delivered_of es1 in
-      let e1 := errs_of es1 in
-      if negb (with_encryption (lc_encrypt c)) then
-        {| o_res := plain_flow q1 e1; o_caps := None; o_packsize := ps1; o_wire := [w1] |}
-      else match negotiation q1 e1 with
-      | inr r => {| o_res := r; o_caps := None; o_packsize := ps1; o_wire := [w1] |}
-      | inl (pem, nonce, q1', e1') =>
-        let '(pkgs, complete) := second_message c pem nonce in
-        if complete then
-          match send_message ps1 0 g_buf_normal (pkgs_chunks pkgs) tx1 with
-          | None => fail
-          | Some (w2, _) =>
-            let '(ess2, _) := rx_run 0 0 rx1 (nth 1 rounds []) in
-            let es2 := concat ess2 in
-            let '(r, caps) := acknowledgement (q1' ++ delivered_of es2) (e1' + errs_of es2)%nat in
-            {| o_res := r; o_caps := caps; o_packsize := size_after ps1 es2; o_wire := [w1; w2] |}
-          end
-        else
-          match queue_all ps1 0 g_buf_normal (pkgs_chunks pkgs) tx1 with
-          | None => fail
-          | Some (w2, _) => {| o_res := LRejected; o_caps := None; o_packsize := ps1;
-                               o_wire := match w2 with [] => [w1] | _ => [w1; w2] end |}   (* packets that were already full *)
-          end
-      end
-    end
-  end.
+  let d := decide keycap c rounds in
+  {| o_res := d_res d; o_caps := d_caps d; o_packsize := d_packsize d; o_wire := wire_of c order d |}.
 End Tx.
